@@ -1030,9 +1030,9 @@ static bool check_complex_statements(ParsingFrame &frm, Chunk *pc, const BraceSt
    {
       if (pc->Is(CT_PAREN_OPEN)) // this is for the paren after "catch"
       {
-         // Replace CT_PAREN_OPEN with CT_SPAREN_OPEN
+         // Replace CT_PAREN_OPEN with CT_SPAREN_OPEN; the statement stays a
+         // 'catch': a 'catch' or 'finally' behind its block continues it
          pc->SetType(CT_SPAREN_OPEN);
-         frm.top().SetOpenToken(pc->GetType());
          frm.top().SetStage(E_BraceStage::PAREN1);
 
          return(false);
